@@ -805,7 +805,10 @@ class StmtGen:
                 if k < 0.7 or simple: s["group_by"].append(("expr", rand_expr(r, r.choice([1, 1, 3]))))
                 elif k < 0.8: s["group_by"].append(("rollup", [rand_expr(r, 1) for _ in range(r.randrange(1, 3))]))
                 elif k < 0.9: s["group_by"].append(("cube", [rand_expr(r, 1) for _ in range(r.randrange(1, 3))]))
-                else: s["group_by"].append(("sets", [[rand_expr(r, 1) for _ in range(r.randrange(0, 3))] for _ in range(r.randrange(1, 3))]))
+                else:
+                    # one grouping set = a list of expressions ( e, ... ) - possibly empty - or ("bare", column reference) written without parentheses
+                    s["group_by"].append(("sets", [("bare", ("ident", False, r.choice(IDENTS))) if r.random() < 0.2 else
+                                                    [rand_expr(r, 1) for _ in range(r.randrange(0, 3))] for _ in range(r.randrange(1, 3))]))
             if r.random() < 0.4: s["having"] = self.expr(5, allow_sub=False, depth=depth)
         if not scalar and r.random() < 0.3: s["order_by"] = self.order_items()
         if not scalar and r.random() < 0.25:
@@ -898,7 +901,7 @@ class StmtGen:
     def merge(self):
         r = self.r
         s = dict(kind="merge", target=self.tname(), talias=r.choice(["", "tgt", "x"]), tas=r.random() < 0.5, source=self.tname(),
-                 salias=r.choice(["", "src", "y"]), sas=r.random() < 0.5, on=rand_expr(r, 3), whens=[])
+                 salias=r.choice(["", "src", "y"]), sas=r.random() < 0.5, on=rand_expr(r, 3), whens=[], into=r.random() < 0.8)
         for _ in range(r.randrange(1, 4)):
             ty = r.choice(["MATCHED", "NOT_MATCHED", "NOT_MATCHED_BY_SOURCE"])
             w = dict(type=ty, cond=rand_expr(r, 3) if r.random() < 0.4 else None)
@@ -1024,6 +1027,11 @@ class StmtRenderer:
             out += l
         return out
 
+    def gset(self, st):
+        """one grouping set: ("bare", column reference) is written without parentheses, a list as ( e, ... )"""
+        if isinstance(st, tuple): return self.E(st[1])
+        return ["("] + self.commas([self.E(x) for x in st]) + [")"]
+
     def table(self, t):
         out = ["LATERAL"] if t.get("lateral") else []
         out += ["("] + self.S(t["sub"]) + [")"] if t["sub"] is not None else [t["name"]]
@@ -1072,7 +1080,7 @@ class StmtRenderer:
                     if g[0] == "expr": gs.append(self.E(g[1]))
                     elif g[0] == "rollup": gs.append(["ROLLUP", "("] + self.commas([self.E(x) for x in g[1]]) + [")"])
                     elif g[0] == "cube": gs.append(["CUBE", "("] + self.commas([self.E(x) for x in g[1]]) + [")"])
-                    else: gs.append(["GROUPING", "SETS", "("] + self.commas([["("] + self.commas([self.E(x) for x in st]) + [")"] for st in g[1]]) + [")"])
+                    else: gs.append(["GROUPING", "SETS", "("] + self.commas([self.gset(st) for st in g[1]]) + [")"])
                 out += ["GROUP", "BY"] + self.commas(gs)
             if s["having"] is not None: out += ["HAVING"] + self.E(s["having"])
             if s["order_by"]: out += ["ORDER", "BY"] + self.order(s["order_by"])
@@ -1119,7 +1127,7 @@ class StmtRenderer:
             if s["returning"]: out += ["RETURNING"] + self.commas([self.E(e) for e in s["returning"]])
             return out
         if k == "merge":
-            out = ["MERGE", "INTO", s["target"]]
+            out = ["MERGE"] + (["INTO"] if s.get("into", True) else []) + [s["target"]]
             if s["talias"]: out += (["AS"] if s["tas"] else []) + [s["talias"]]
             out += ["USING", s["source"]]
             if s["salias"]: out += (["AS"] if s["sas"] else []) + [s["salias"]]
@@ -1232,7 +1240,7 @@ class StmtPrescriber:
                 elif g[0] == "rollup": gb.append(node("RollupExpression", Expressions=[self.E(x) for x in g[1]]))
                 elif g[0] == "cube": gb.append(node("CubeExpression", Expressions=[self.E(x) for x in g[1]]))
                 else:
-                    d = {"_": "GroupingSetsExpression", "Sets": [[self.E(x) for x in st] for st in g[1]]}
+                    d = {"_": "GroupingSetsExpression", "Sets": [[self.E(st[1])] if isinstance(st, tuple) else [self.E(x) for x in st] for st in g[1]]}
                     gb.append(d)
             d = node("SelectStatement", With=W, Distinct=s["distinct"], DistinctOnColumns=[self.E(e) for e in s["distinct_on"]], Columns=cols,
                      From=[self.table(t) for t in s["from_"]], TableName=s["from_"][0]["name"] if s["from_"] else "", Joins=joins,
